@@ -42,7 +42,7 @@ type connPlan struct {
 }
 
 type op struct {
-	Kind string `json:"k"` // serve | yield | sleep | release | waitidle | stop
+	Kind string `json:"k"` // serve | yield | sleep | release | waitidle | restart (N&1: Stop twice) | stop | stopatclean
 	Conn int    `json:"c,omitempty"`
 	N    int    `json:"n,omitempty"`
 }
@@ -59,6 +59,16 @@ func genCase(rnd *rand.Rand) caseSpec {
 	nconns := 1 + rnd.Intn(6)
 	if rnd.Intn(2) == 0 {
 		nconns += rnd.Intn(20)
+	}
+	atClean := rnd.Intn(4) == 0 // the final Stop lands while the cleaner sits between compacting ready and notifying
+	if atClean && rnd.Intn(3) == 0 {
+		cs.Max = 8 + rnd.Intn(25) // many workers going idle together
+		nconns = cs.Max + rnd.Intn(cs.Max)
+		cs.IdleMs = 5 + rnd.Intn(6)
+	}
+	restarts := 0
+	if rnd.Intn(3) == 0 {
+		restarts = 1 + rnd.Intn(2)
 	}
 	gateBias := rnd.Intn(4) // 0: no gates at all … 3: mostly gates
 	for i := 0; i < nconns; i++ {
@@ -115,6 +125,25 @@ func genCase(rnd *rand.Rand) caseSpec {
 		if cs.Plans[i].Hold == "gate" {
 			gated = append(gated, i)
 		}
+		if restarts > 0 && i < nconns-1 && rnd.Intn(1+(nconns-1-i)/restarts) == 0 {
+			// restart the same pool object: Stop (once or twice) while the gated connections are still being served,
+			// or after some/all of them were released, then Start again; the Serve calls that follow arrive before
+			// the surviving workers finish
+			switch rnd.Intn(4) {
+			case 0:
+				for _, g := range gated {
+					cs.Ops = append(cs.Ops, op{Kind: "release", Conn: g})
+				}
+				gated = gated[:0]
+			case 1:
+				if len(gated) > 0 {
+					cs.Ops = append(cs.Ops, op{Kind: "release", Conn: gated[0]})
+					gated = gated[1:]
+				}
+			}
+			cs.Ops = append(cs.Ops, op{Kind: "restart", N: rnd.Intn(4)})
+			restarts--
+		}
 	}
 	if rnd.Intn(4) == 0 {
 		cs.Ops = append(cs.Ops, op{Kind: "waitidle"})
@@ -128,7 +157,11 @@ func genCase(rnd *rand.Rand) caseSpec {
 	if rnd.Intn(2) == 0 {
 		cs.Ops = append(cs.Ops, op{Kind: "yield", N: 1 + rnd.Intn(4)})
 	}
-	cs.Ops = append(cs.Ops, op{Kind: "stop"})
+	if atClean {
+		cs.Ops = append(cs.Ops, op{Kind: "stopatclean"})
+	} else {
+		cs.Ops = append(cs.Ops, op{Kind: "stop", N: rnd.Intn(4)})
+	}
 	return cs
 }
 
@@ -222,6 +255,11 @@ type poolMon struct {
 	maxWorkers  atomic.Int32
 	maxReady    atomic.Int32
 	samples     atomic.Int64
+	epoch       atomic.Int64 // bumped just before every re-Start
+	wantPark    atomic.Bool  // park this pool's cleaner at its next wp.clean.unlocked
+	parkedCh    chan struct{}
+	goCh        chan struct{}
+	goOnce      sync.Once
 	stopped     atomic.Bool
 	liveRefuted atomic.Bool // a bounded-liveness wait hit its cap in this case
 
@@ -276,7 +314,11 @@ func (pm *poolMon) sample(where string) {
 		return
 	}
 	stopped := pm.stopped.Load() // read BEFORE the counters: only a sample taken wholly after Stop returned is judged
+	ep := pm.epoch.Load()
 	w, rdy, _ := pm.pool.Counts()
+	if pm.epoch.Load() != ep {
+		stopped = false // the pool was started again meanwhile
+	}
 	pm.samples.Add(1)
 	storeMax(&pm.maxWorkers, int32(w))
 	storeMax(&pm.maxReady, int32(rdy))
@@ -325,10 +367,48 @@ func curGID() uint64 {
 	return id
 }
 
+// parentGID parses the "created by ... in goroutine N" line of the current goroutine's stack.
+func parentGID() uint64 {
+	buf := make([]byte, 8192)
+	n := runtime.Stack(buf, false)
+	st := string(buf[:n])
+	i := strings.LastIndex(st, " in goroutine ")
+	if i < 0 {
+		return 0
+	}
+	var id uint64
+	for _, c := range st[i+len(" in goroutine "):] {
+		if c < '0' || c > '9' {
+			break
+		}
+		id = id*10 + uint64(c-'0')
+	}
+	return id
+}
+
 func (b *batch) onPoint(name string) {
 	gid := curGID()
-	if v, ok := b.gids.Load(gid); ok {
+	v, ok := b.gids.Load(gid)
+	if !ok && name == "wp.clean.unlocked" {
+		// the cleaner goroutine was created by Start, which the pool's serve goroutine called: that identifies the pool
+		if pv, ok2 := b.gids.Load(parentGID()); ok2 {
+			info := &gidInfo{pm: pv.(*gidInfo).pm}
+			b.gids.Store(gid, info)
+			v, ok = info, true
+		}
+	}
+	if ok {
 		info := v.(*gidInfo)
+		if name == "wp.clean.unlocked" && info.pm.wantPark.CompareAndSwap(true, false) {
+			// the cleaner has cut the obsolete workers out of ready (under the lock) and has not notified them yet:
+			// hold it here until the harness has called Stop
+			info.pm.log("cleaner-parked", -1, 0, 0)
+			info.pm.sample(name)
+			info.pm.parkedCh <- struct{}{}
+			<-info.pm.goCh
+			info.pm.log("cleaner-released", -1, 0, 0)
+			return
+		}
 		if name == "wp.release.enter" && info.rec != nil && !info.rec.finished() {
 			info.pm.log("release-unfinished", info.rec.id, 0, 0)
 			info.pm.violate("released-before-close", fmt.Sprintf("worker entered release() while conn %d (the one it just served) was neither closed nor reported hijacked", info.rec.id))
@@ -346,6 +426,10 @@ func (b *batch) onPoint(name string) {
 		}
 	}
 }
+
+// curLiveCap is liveCap until a run has its first refuted batch; the rest of that (already violated) run waits 2 s
+// per refuted wait (still 100x the largest MaxIdleWorkerDuration) so that more cases can be judged before the cut.
+var curLiveCap atomic.Int64
 
 func pollUntil(cap time.Duration, cond func() bool) bool {
 	start := time.Now()
@@ -370,18 +454,26 @@ const (
 )
 
 type caseResult struct {
-	pm           *poolMon
-	accepted     int
-	rejected     int
-	hijacked     int
-	errs         int
-	stopBusy     int
-	waitIdles    int
-	idleRetireMs float64
+	pm                   *poolMon
+	accepted             int
+	rejected             int
+	hijacked             int
+	errs                 int
+	stopBusy             int
+	waitIdles            int
+	idleRetireMs         float64
+	restarts             int // Stop + Start on the same pool object
+	restartsBusy         int // ... with at least one accepted connection still being served
+	servedWhileSurvivors int // Serve()==true after a restart while a connection accepted before it was still unfinished
+	doubleStops          int
+	parked               int // final Stop issued while the cleaner was held between compaction and notification
+	parkMissed           int
 }
 
 func runCase(b *batch, idx int, spec caseSpec) *caseResult {
-	pm := &poolMon{caseIdx: idx, spec: spec}
+	pm := &poolMon{caseIdx: idx, spec: spec, parkedCh: make(chan struct{}, 1), goCh: make(chan struct{})}
+	releaseCleaner := func() { pm.wantPark.Store(false); pm.goOnce.Do(func() { close(pm.goCh) }) }
+	defer releaseCleaner()
 	res := &caseResult{pm: pm}
 	for i, p := range spec.Plans {
 		pm.conns = append(pm.conns, &connRec{id: i, plan: p, gate: make(chan struct{}), pm: pm})
@@ -510,6 +602,9 @@ func runCase(b *batch, idx int, spec caseSpec) *caseResult {
 	pm.log("start", -1, 0, 0)
 	ok := true
 	skipLiveness := false
+	restarted := false
+	survivorsFrom := 0
+	_ = survivorsFrom
 	for _, o := range spec.Ops {
 		if !ok {
 			break
@@ -522,6 +617,14 @@ func runCase(b *batch, idx int, spec caseSpec) *caseResult {
 			if r {
 				rec.serveRes.Store(1)
 				res.accepted++
+				if restarted {
+					for _, c := range pm.conns[:rec.id] {
+						if c.serveRes.Load() == 1 && !c.finished() {
+							res.servedWhileSurvivors++
+							break
+						}
+					}
+				}
 				v := pm.inflight.Add(1)
 				pm.log("serve-true", rec.id, int(v), 0)
 				if int(v) > spec.Max {
@@ -552,6 +655,7 @@ func runCase(b *batch, idx int, spec caseSpec) *caseResult {
 				break
 			}
 			t0 := time.Now()
+			liveCap := time.Duration(curLiveCap.Load())
 			retired := pollUntil(liveCap, func() bool { w, _, _ := pm.pool.Counts(); return w == 0 })
 			w, rdy, _ := pm.pool.Counts()
 			pm.log("waitidle", -1, w, rdy)
@@ -565,23 +669,83 @@ func runCase(b *batch, idx int, spec caseSpec) *caseResult {
 					res.idleRetireMs = ms
 				}
 			}
-		case "stop":
+		case "restart":
+			busy := 0
 			for _, c := range pm.conns {
 				if c.serveRes.Load() == 1 && !c.finished() {
-					res.stopBusy++
+					busy++
 				}
 			}
-			pm.log("stop-call", -1, res.stopBusy, 0)
+			pm.log("restart-stop", -1, busy, o.N)
 			pm.pool.Stop()
+			if o.N&1 == 1 {
+				pm.pool.Stop() // a second Stop is a no-op
+				res.doubleStops++
+			}
+			pm.stopped.Store(true)
+			pm.sample("after-stop")
+			res.restarts++
+			if busy > 0 {
+				res.restartsBusy++
+				survivorsFrom = o.Conn
+			}
+			if o.N&2 == 2 {
+				runtime.Gosched()
+			}
+			pm.stopped.Store(false)
+			pm.epoch.Add(1)
+			pm.pool.Start()
+			restarted = true
+			pm.log("restart-start", -1, 0, 0)
+			pm.sample("after-restart")
+		case "stop", "stopatclean":
+			if o.Kind == "stopatclean" {
+				// every connection finished, the workers sit in ready; wait until the cleaner has cut the obsolete
+				// ones out of ready and is held (by the hook) just before it notifies them, then Stop
+				releaseAll()
+				if !quiesce("before stop-at-clean") {
+					ok = false
+					break
+				}
+				if _, rdy, _ := pm.pool.Counts(); rdy > 0 {
+					pm.wantPark.Store(true)
+					select {
+					case <-pm.parkedCh:
+						res.parked++
+					case <-time.After(5 * time.Second): // (harness pacing only: without the park it is an ordinary Stop)
+						pm.wantPark.Store(false)
+						select {
+						case <-pm.parkedCh:
+							res.parked++
+						default:
+							res.parkMissed++
+						}
+					}
+				}
+			}
+			busyNow := 0
+			for _, c := range pm.conns {
+				if c.serveRes.Load() == 1 && !c.finished() {
+					busyNow++
+				}
+			}
+			res.stopBusy += busyNow
+			pm.log("stop-call", -1, busyNow, res.parked)
+			pm.pool.Stop()
+			if o.Kind == "stop" && o.N == 0 {
+				pm.pool.Stop()
+				res.doubleStops++
+			}
 			pm.stopped.Store(true)
 			pm.log("stop-ret", -1, 0, 0)
 			pm.sample("after-stop")
+			releaseCleaner()
 		}
 	}
 	// after Stop: the connections still being served finish later
 	releaseAll()
 	if ok && quiesce("after-stop") {
-		cap := liveCap
+		cap := time.Duration(curLiveCap.Load())
 		if skipLiveness {
 			cap = time.Second // already refuted in this case; the final verdict keys stay the same class of defect
 		}
@@ -688,6 +852,8 @@ func TestC13(t *testing.T) {
 	var maxIdleRetire float64
 	var peakWorkers, peakReady int32
 	aborted := false
+	stuckBatches := 0
+	curLiveCap.Store(int64(liveCap))
 	for bi := 0; bi < nb && !aborted; bi++ {
 		var idxs []int
 		for i := bi * batchSize; i < (bi+1)*batchSize && i < n; i++ {
@@ -743,7 +909,7 @@ func TestC13(t *testing.T) {
 			aborted = true
 			break
 		}
-		stuck := false
+		stuck, hardStuck := false, false
 		for k, res := range results {
 			if res == nil {
 				continue
@@ -752,14 +918,20 @@ func TestC13(t *testing.T) {
 			pm := res.pm
 			spec := pm.spec
 			reachedMax := int(pm.maxRunning.Load()) == spec.Max
-			class := fmt.Sprintf("max=%d conns=%s rej=%s hj=%s err=%s stopBusy=%s idle=%v peak=%v", spec.Max, bucket(len(spec.Plans)), bucket(res.rejected), bucket(res.hijacked), bucket(res.errs), bucket(res.stopBusy), res.waitIdles > 0, reachedMax)
-			r.Case(class, res.rejected > 0 || res.hijacked > 0 || res.stopBusy > 0 || res.waitIdles > 0)
+			class := fmt.Sprintf("max=%d conns=%s rej=%s hj=%s err=%s stopBusy=%s idle=%v peak=%v restart=%d/%d park=%d", spec.Max, bucket(len(spec.Plans)), bucket(res.rejected), bucket(res.hijacked), bucket(res.errs), bucket(res.stopBusy), res.waitIdles > 0, reachedMax, res.restarts, res.restartsBusy, res.parked)
+			r.Case(class, res.rejected > 0 || res.hijacked > 0 || res.stopBusy > 0 || res.waitIdles > 0 || res.restarts > 0 || res.parked > 0)
 			r.Event("conns_accepted", res.accepted)
 			r.Event("conns_rejected", res.rejected)
 			r.Event("conns_hijacked", res.hijacked)
 			r.Event("conns_error_result", res.errs)
 			r.Event("busy_at_stop", res.stopBusy)
 			r.Event("idle_retirements_awaited", res.waitIdles)
+			r.Event("restarts", res.restarts)
+			r.Event("restarts_with_busy_workers", res.restartsBusy)
+			r.Event("serve_true_after_restart_while_survivors_busy", res.servedWhileSurvivors)
+			r.Event("double_stops", res.doubleStops)
+			r.Event("stops_with_cleaner_parked_after_compaction", res.parked)
+			r.Event("cleaner_park_missed", res.parkMissed)
 			r.Event("counts_samples", int(pm.samples.Load()))
 			if reachedMax {
 				r.Event("cases_peak_workerfunc_eq_max", 1)
@@ -776,7 +948,7 @@ func TestC13(t *testing.T) {
 			}
 			for _, s := range pm.incon {
 				r.Inconclusive(s)
-				stuck = true
+				stuck, hardStuck = true, true // the 20 s quiescence watchdog fired: stop at once
 			}
 			if pm.liveRefuted.Load() {
 				stuck = true
@@ -799,9 +971,13 @@ func TestC13(t *testing.T) {
 		}
 		if stuck {
 			// a bounded-liveness wait (10 s) or the quiescence watchdog fired: every further case would
-			// spend the same caps; the verdict is already recorded, so the run is cut short.
-			r.Event("cases_skipped_after_liveness_refutation", n-(bi+1)*batchSize)
-			aborted = true
+			// spend the same caps; the verdict is already recorded, so the run is cut short after a few batches.
+			stuckBatches++
+			curLiveCap.Store(int64(2 * time.Second))
+			if stuckBatches >= 6 || hardStuck {
+				r.Event("cases_skipped_after_liveness_refutation", n-(bi+1)*batchSize)
+				aborted = true
+			}
 		}
 	}
 	r.Set("hook_hits", hits)
@@ -821,6 +997,11 @@ func TestC13(t *testing.T) {
 		r.Require("conns_hijacked", n/20)
 		r.Require("busy_at_stop", n/20)
 		r.Require("idle_retirements_awaited", n/20)
+		r.Require("restarts", n/5)
+		r.Require("restarts_with_busy_workers", n/20)
+		r.Require("serve_true_after_restart_while_survivors_busy", n/40)
+		r.Require("double_stops", n/10)
+		r.Require("stops_with_cleaner_parked_after_compaction", n/10)
 		r.Require("pools_stopped_and_drained", n)
 		r.Require("counts_samples", n*5)
 		r.Require("cases_peak_workerfunc_eq_max", n/20)
